@@ -40,7 +40,10 @@ type MakeLoadForm struct {
 // Call the the function with the arguments provided.
 func (f *MakeLoadForm) Call(s *slip.Scope, args slip.List, depth int) (form slip.Object) {
 	slip.CheckArgCount(s, depth, f, args, 1, 1)
-
+	if args[0] == nil {
+		// nil, the empty list, evaluates to itself.
+		return nil
+	}
 	return ObjectLoadForm(args[0], true)
 }
 
